@@ -63,6 +63,7 @@ def run(ctx):
     ctx.distinct = tc.distinct(subs + tabs)
     vlib.run_and_judge(ctx, subs, "Trace_Sub.cfg", "Trace_Sub.tla", "c11s")
     tc.judge(ctx, tabs, "c11t")
+    vlib.run_and_judge(ctx, subs[-400:], "Trace_Sub.cfg", "Trace_Sub.tla", "c11chk", profile="checked")
     return vlib.finish(ctx, rule="entry builders: all option-call sequences to the depth bound over every option-bearing structure "
                        "(MC_Options: union/order/idempotence/distinctness on the spec), every constructor option combination, random "
                        "longer sequences with repetitions; FADT: every flag and profile alone, all ordered flag pairs, random "
